@@ -196,8 +196,52 @@ FS_NAMES = {n: i for i, n in enumerate("abcdef")}
 E = dict(BADF=8, EXIST=20, INVAL=28, IO=29, ISDIR=31, NOENT=44, NOTDIR=54, NOTEMPTY=55, NOTSUP=58, NOSYS=52, PERM=63)
 
 
-def fs_path(p): return zl([FS_NAMES[x] for x in p.split("/")])
+def fs_slash(p): return len(p) > 1 and p.endswith("/")
+def fs_comps(p): return tuple((p[:-1] if fs_slash(p) else p).split("/"))
+def fs_name_id(x):
+    """the generator's names are a..f; anything else can only show up in a host tree written by broken code"""
+    if x not in FS_NAMES: FS_NAMES[x] = 100 + len(FS_NAMES)
+    return FS_NAMES[x]
+def fs_path(p): return zl([fs_name_id(x) for x in fs_comps(p)])      # a trailing '/' is not a component: it becomes a flag
 def fs_bytes(h): return zl(list(bytes.fromhex(h)))
+
+
+def fs_is_raw(p):
+    """not a clean relative path (optionally followed by one '/'): has '.', '..', an empty component or a leading '/'"""
+    q = p[:-1] if fs_slash(p) else p
+    return any(x in ("", ".", "..") for x in q.split("/"))
+
+
+def fs_rpath(p):
+    """(rooted, components) of the raw string for Sys.FsNorm.norm"""
+    cs = "; ".join("CEmpty" if x == "" else "CDot" if x == "." else "CDotDot" if x == ".." else "CName %d" % fs_name_id(x) for x in p.split("/"))
+    return "%s [%s]" % (coq_bool(p.startswith("/")), cs)
+
+
+def fs_lex(p):
+    """the oracle's own lexical normalisation (what atPath documents): the components, or None when the path is
+    rooted or leaves the directory"""
+    if p.startswith("/"): return None
+    out = []
+    for x in p.split("/"):
+        if x in ("", "."): continue
+        if x == "..":
+            if not out: return None
+            out.pop()
+        else:
+            out.append(x)
+    return tuple(out)
+
+
+def fs_dirfds(op):
+    """(dirfd of the first path argument, dirfd of the second) of a path operation; older case files omit them"""
+    k = op[0]
+    if k == "open": return (op[5] if len(op) > 5 else 3), None
+    if k == "rename":
+        if len(op) > 4: return op[3], op[4]
+        d = op[3] if len(op) > 3 else 3
+        return d, d
+    return (op[2] if len(op) > 2 and isinstance(op[2], int) else 3), None
 
 
 def fs_coq_op(op):
@@ -213,13 +257,34 @@ def fs_coq_op(op):
     if k == "tell": return "FdTell %s" % zs(op[1])
     if k == "setsize": return "FdSetSize %s %s" % (zs(op[1]), zs(op[2]))
     if k == "fstat": return "FdStat %s" % zs(op[1])
-    d = zs(op[-1]) if isinstance(op[-1], int) else "3"
-    if k == "mkdir": return "Mkdir %s %s" % (d, fs_path(op[1]))
-    if k == "rmdir": return "Rmdir %s %s" % (d, fs_path(op[1]))
-    if k == "unlink": return "Unlink %s %s" % (d, fs_path(op[1]))
-    if k == "rename": return "Rename %s %s %s %s" % (d, fs_path(op[1]), d, fs_path(op[2]))
-    if k == "stat": return "Stat %s %s" % (d, fs_path(op[1]))
+    d, d2 = fs_dirfds(op)
+    if k == "mkdir": return "Mkdir %s %s" % (zs(d), fs_path(op[1]))
+    if k == "rmdir": return "Rmdir %s %s" % (zs(d), fs_path(op[1]))
+    if k == "unlink": return "Unlink %s %s" % (zs(d), fs_path(op[1]))
+    if k == "rename": return "Rename %s %s %s %s" % (zs(d), fs_path(op[1]), zs(d2), fs_path(op[2]))
+    if k == "stat": return "Stat %s %s" % (zs(d), fs_path(op[1]))
     raise ValueError(k)
+
+
+FS_PATH_OPS = ("open", "mkdir", "rmdir", "unlink", "rename", "stat")
+
+
+def fs_coq_nop(op):
+    """Sys.FsNorm.nop: NOp o t1 t2 (clean paths; t = that path argument ends in '/'), NRaw / NRename for raw paths"""
+    k = op[0]
+    if k not in FS_PATH_OPS:
+        return "NOp (%s) false false" % fs_coq_op(op)
+    t1 = coq_bool(op[1].endswith("/"))
+    d1, d2 = fs_dirfds(op)
+    if k == "rename":
+        t2 = coq_bool(op[2].endswith("/"))
+        if fs_is_raw(op[1]) or fs_is_raw(op[2]):
+            return "NRename %s %s %s %s %s %s" % (zs(d1), fs_rpath(op[1]), t1, zs(d2), fs_rpath(op[2]), t2)
+        return "NOp (%s) %s %s" % (fs_coq_op(op), t1, t2)
+    if fs_is_raw(op[1]):
+        kind = {"open": "(POpen %d %d %d)" % tuple(op[2:5]) if k == "open" else "", "mkdir": "PMkdir", "rmdir": "PRmdir", "unlink": "PUnlink", "stat": "PStat"}[k]
+        return "NRaw %s %s %s %s" % (kind, zs(d1), fs_rpath(op[1]), t1)
+    return "NOp (%s) %s false" % (fs_coq_op(op), t1)
 
 
 def fs_coq_obs(op, ob):
@@ -234,7 +299,7 @@ def fs_coq_obs(op, ob):
 
 def fs_coq_case(c):
     tree = "; ".join("(%s, %s)" % (fs_path(t[0]), "None" if t[1] == "dir" else "Some %s" % fs_bytes(t[2])) for t in (c["tree"] or []))
-    return "([%s], [%s], [%s])" % ("; ".join(fs_coq_op(o) for o in c["ops"]),
+    return "([%s], [%s], [%s])" % ("; ".join(fs_coq_nop(o) for o in c["ops"]),
                                    "; ".join(fs_coq_obs(o, b) for o, b in zip(c["ops"], c["obs"])), tree)
 
 
@@ -242,12 +307,17 @@ class _File:
     def __init__(self): self.data = bytearray()
 
 
-def fs_oracle(c):
+def fs_oracle(c, stats=None):
     """POSIX-style reference written directly in Python (independent of the Coq model): descriptors
     are lowest-free and live until closed/renumbered, every read sees what was written through any
     descriptor of the same file, directory changes are seen by later lookups, failed calls change
-    nothing. Failures are judged by class (must fail / must succeed); only EBADF for a descriptor
-    that is not open is checked exactly. Returns the first contradiction or None."""
+    nothing. A path is resolved relative to the directory its descriptor was opened as. A name with a
+    trailing slash resolves only to a directory: it never opens, stats, unlinks, creates or renames a
+    regular file (and a call that fails changes nothing). Failures are judged by class (must fail /
+    must succeed); only EBADF for a descriptor that is not open is checked exactly.
+    Returns the first contradiction or None. [stats], if given, receives input-distribution counters."""
+    def count(key):
+        if stats is not None: stats[key] = stats.get(key, 0) + 1
     tree = {}                                   # path tuple -> "dir" | _File
     fds = {0: "stdio", 1: "stdio", 2: "stdio", 3: dict(kind="pre")}
 
@@ -366,16 +436,62 @@ def fs_oracle(c):
                 if ob != want: return bad("expected %s" % want)
                 continue
         # ---- path operations
-        dirfd = op[5] if (k == "open" and len(op) > 5) else (op[-1] if isinstance(op[-1], int) and k != "open" else 3)
-        b = base(dirfd)
+        d1, d2 = fs_dirfds(op)
+        sl1, sl2 = op[1].endswith("/"), (k == "rename" and op[2].endswith("/"))
+        count("path_ops")
+        if sl1 or sl2: count("trailing_slash_ops")
+        raw = fs_is_raw(op[1]) or (k == "rename" and fs_is_raw(op[2]))
+        if raw: count("raw_path_ops")
+        # a path that is rooted or leaves the directory of its descriptor is refused (EPERM) before anything else
+        lex1 = fs_lex(op[1])
+        if lex1 is None:
+            count("raw_path_escapes")
+            if en != E["PERM"]: return bad("%r leaves the directory of the descriptor, expected EPERM" % op[1])
+            continue
+        if lex1 == (): sl1 = True     # the directory of the descriptor itself: "." must be a directory, like "name/"
+        b = base(d1)
         if b == "badf":
             if en != E["BADF"]: return bad("directory descriptor is not open, expected EBADF")
             continue
         if b == "notdir":
             if ok: return bad("directory descriptor is a file")
             continue
-        full = b + tuple(op[1].split("/"))
+        full = b + lex1
+        lex2 = fs_lex(op[2]) if k == "rename" else ()
+        if lex2 is None:
+            count("raw_path_escapes")
+            if en != E["PERM"]: return bad("%r leaves the directory of the descriptor, expected EPERM" % op[2])
+            continue
+        if raw:
+            # POSIX resolves ".", ".." and empty components one at a time in directories that must exist; atPath
+            # normalises lexically. Where the two differ the call is judged as implemented, and counted.
+            def posix_walk(bb, p):
+                cur = list(bb)
+                for x in (p[:-1] if p.endswith("/") else p).split("/"):
+                    if node(tuple(cur)) != "dir": return False
+                    if x == "..": cur.pop()
+                    elif x not in ("", "."): cur.append(x)
+                return True
+            if ok and (not posix_walk(b, op[1]) or (k == "rename" and base(d2) not in ("badf", "notdir") and not posix_walk(base(d2), op[2]))):
+                count("lexical_resolution_succeeds_where_posix_fails")
         r = resolve(full)
+        isfile = isinstance(r, _File)
+        if full == () and k in ("mkdir", "rmdir", "unlink", "rename"):
+            if ok: return bad("changed the mount point itself")
+            continue                                 # the mount point itself: outside the property (and not generated)
+        rclass = "file" if isfile else r
+        via = d1 != 3                                # an open directory descriptor other than the pre-open
+        if k == "rename":
+            b2 = base(d2)
+            via = via or (d2 != 3 and b2 not in ("badf", "notdir"))
+        if via:
+            count("via_dirfd_ops")
+            if isfile or r == "dir": count("via_dirfd_existing")
+            if sl1 or sl2: count("via_dirfd_trailing_slash")
+            if (sl1 or sl2) and isfile: count("via_dirfd_trailing_slash_on_file")
+        if sl1: count("trailing_slash_on_" + ("missing" if rclass in ("noent", "notdir", "free") else rclass))
+        if sl1 and isfile and ok and not (k == "rename" and sl2 and b2 not in ("badf", "notdir") and full == b2 + lex2):
+            return bad("%r names a regular file: a name with a trailing slash resolves only to a directory" % op[1])
         if k == "open":
             ofl, fdf, rights = op[2], op[3], op[4]
             creat, isdir, excl, trunc = bool(ofl & 1), bool(ofl & 2), bool(ofl & 4), bool(ofl & 8)
@@ -385,10 +501,10 @@ def fs_oracle(c):
             elif ww and not rr: pass
             if isdir and creat: must_fail = True
             elif r in ("noent", "notdir"): must_fail = True
-            elif r == "free": must_fail = not creat
+            elif r == "free": must_fail = not creat or sl1     # "new/" never creates a regular file
             elif r == "dir": must_fail = creat or ww or trunc
-            else: must_fail = (creat and excl) or isdir
-            if ok == must_fail: return bad("path_open %s (path resolves to %s)" % ("must fail" if must_fail else "must succeed", r if isinstance(r, str) else "file"))
+            else: must_fail = (creat and excl) or isdir or sl1
+            if ok == must_fail: return bad("path_open %s (path resolves to %s)" % ("must fail" if must_fail else "must succeed", rclass))
             if ok:
                 want = 0
                 while want in fds: want += 1
@@ -396,7 +512,7 @@ def fs_oracle(c):
                 if r == "dir":
                     fds[want] = dict(kind="dir", name=full)
                 else:
-                    f = r if isinstance(r, _File) else _File()
+                    f = r if isfile else _File()
                     if r == "free": tree[full] = f
                     if trunc: del f.data[:]
                     fds[want] = dict(kind="file", file=f, off=0, app=app, r=rr or not ww, w=ww)
@@ -405,7 +521,7 @@ def fs_oracle(c):
             must_fail = r != "free"
             if ok == must_fail: return bad("mkdir %s" % ("must fail" if must_fail else "must succeed"))
             if ok: tree[full] = "dir"
-            elif isinstance(r, _File) or r == "dir":
+            elif isfile or r == "dir":
                 if en != E["EXIST"]: return bad("path exists, expected EEXIST")
         elif k == "rmdir":
             must_fail = r != "dir" or children(full)
@@ -413,27 +529,44 @@ def fs_oracle(c):
             if ok: del tree[full]
             elif r == "dir" and en != E["NOTEMPTY"]: return bad("directory not empty, expected ENOTEMPTY")
         elif k == "unlink":
-            must_fail = not isinstance(r, _File)
+            must_fail = not isfile or sl1
             if ok == must_fail: return bad("unlink %s" % ("must fail" if must_fail else "must succeed"))
             if ok: del tree[full]
         elif k == "stat":
-            must_fail = r in ("noent", "notdir", "free")
+            must_fail = r in ("noent", "notdir", "free") or (sl1 and isfile)
             if ok == must_fail: return bad("filestat_get %s" % ("must fail" if must_fail else "must succeed"))
             if ok:
                 want = [0, 3, 0] if r == "dir" else [0, 4, len(r.data)]
                 if ob != want: return bad("expected %s" % want)
             elif r in ("noent", "free") and en != E["NOENT"]: return bad("expected ENOENT")
         elif k == "rename":
-            new = b + tuple(op[2].split("/"))
+            if b2 == "badf":
+                if en != E["BADF"]: return bad("second directory descriptor is not open, expected EBADF")
+                continue
+            if b2 == "notdir":
+                if ok: return bad("second directory descriptor is a file")
+                continue
+            new = b2 + lex2
+            if new == ():
+                if ok: return bad("changed the mount point itself")
+                continue
             r2 = resolve(new)
+            if sl2: count("trailing_slash_on_" + ("missing" if r2 in ("noent", "notdir", "free") else "file" if isinstance(r2, _File) else r2))
             if full == new:
-                # POSIX: ENOENT when the path does not exist; wazero short-cuts identical paths to success
-                if not ok and not (r in ("noent", "notdir", "free")): return bad("rename onto itself failed")
+                if sl1 == sl2:
+                    # POSIX: ENOENT when the path does not exist (ENOTDIR for "file/"); wazero short-cuts textually
+                    # identical names to success. Either way nothing changes; both answers are accepted.
+                    if not ok and (r == "dir" or (isfile and not sl1)): return bad("rename onto itself failed")
+                    if ok and (not (r == "dir" or isfile) or (isfile and sl1)): count("rename_same_name_shortcut")
+                else:
+                    must_fail = r != "dir"      # "x/" and "x" are the same thing only if x is a directory
+                    if ok == must_fail: return bad("rename %s (one name ends in '/', both name the same %s)" % ("must fail" if must_fail else "must succeed", rclass))
                 continue
             inside = len(new) > len(full) and new[:len(full)] == full
             above = len(full) > len(new) and full[:len(new)] == new
             if r in ("noent", "notdir", "free") or r2 in ("noent", "notdir"): must_fail = True
             elif inside or above: must_fail = True
+            elif isfile and (sl1 or sl2): must_fail = True        # a regular file never moves from or to a name ending in '/'
             elif r2 == "free": must_fail = False
             elif r == "dir": must_fail = r2 != "dir" or children(new)
             else: must_fail = r2 == "dir"
@@ -464,7 +597,7 @@ def fs_sig(c, j):
 
 STREAMS = {
     "table": dict(mod="Sys.DescTable", case=table_coq_case, oracle=table_oracle, sig=table_sig, shard=50),
-    "fs": dict(mod="Sys.FsModel", case=fs_coq_case, oracle=fs_oracle, sig=fs_sig, shard=100),
+    "fs": dict(mod="Sys.FsModel Sys.FsSlash Sys.FsNorm", case=fs_coq_case, oracle=fs_oracle, sig=fs_sig, shard=100, ctype="case_n", mism="mismatches_n"),
     "readdir": dict(mod="Sys.Dirent", case=rd_coq_case, oracle=rd_oracle, sig=rd_sig, shard=60, dirs=rd_dir_def, prelude=PACK_PRELUDE),
 }
 
@@ -480,8 +613,8 @@ def shard_text(name, shard):
                 prelude += "Definition %s : list dirent := %s.\n" % (names[c["dir"]], st["dirs"](c))
         render = lambda c: st["case"](c, names[c["dir"]])
     return ("From Verif Require Import Lib.GoInt %s.\nOpen Scope Z_scope.\n" % st["mod"] + prelude +
-            "Definition cases : list case := [\n" + ";\n".join(render(c) for c in shard) + "].\n"
-            "Definition M := Eval vm_compute in mismatches 0 cases.\nPrint M.\n")
+            "Definition cases : list %s := [\n" % st.get("ctype", "case") + ";\n".join(render(c) for c in shard) + "].\n"
+            "Definition M := Eval vm_compute in %s 0 cases.\nPrint M.\n" % st.get("mism", "mismatches"))
 
 
 def eval_streams(ck, by, big=False):
@@ -518,14 +651,15 @@ def run(tier, seed):
     ck = Check("C16", tier, seed)
     ck.trusted += ["hand transcription of internal/descriptor/table.go in coq/Sys/DescTable.v (generic, slice based: outside go2coq), tied by the table stream incl. final masks words and len(items)",
                    "hand transcription of DirentCache.Read/cachedDirents (internal/sys/fs.go) and fdReaddirFn/maxDirents/writeDirents/writeDirent (imports/wasi_snapshot_preview1/fs.go) in coq/Sys/Dirent.v, tied by the readdir stream (errno, bufused and every byte of the buffer, through the real host function)",
-                   "coq/Sys/FsModel.v is a reference model (not a transcription) of path_open/fd_*/path_* as implemented by wazero over sysfs over the Linux kernel; tied by the fs stream (errno, outputs, opened fd numbers, final host tree)",
+                   "coq/Sys/FsModel.v + coq/Sys/FsSlash.v (trailing-slash guard in front of FsModel.step) + coq/Sys/FsNorm.v (lexical normalisation of '.', '..', empty components in front of that; about 1 path argument in 8) are a reference model (not a transcription) of path_open/fd_*/path_* as implemented by wazero over sysfs over the Linux kernel; tied by the fs stream (errno, outputs, opened fd numbers, final host tree), with about 1 path argument in 6 ending in '/' and about a third of the path operations going through a directory descriptor other than the pre-open with a path relative to it",
                    "tools/go2coq for the constants DirentSize, largestDirent, errno numbers, O_*/FD_APPEND/FILETYPE_* (regenerated from internal/wasip1 and imports/wasi_snapshot_preview1)",
                    "the host kernel, the Go os package and the temp file system are the other half of the implementation under the fs and readdir streams",
                    "harness/c16 (Go, proxy guest module) and checks/c16.py (case conversion, oracles)"]
     ck.assumptions += ["descriptor table: keys are int32, a run stops at the first Go panic (only Insert on a table holding all 2^31 keys)",
                        "fd_readdir: the directory does not change while it is read; sys.File.Readdir(n) returns min(n, remaining) entries; fewer than 2^62 entries; names shorter than 2^32-48 bytes; the buffer lies inside guest memory",
-                       "fs model: one mount, no symlinks/hard links, paths are clean relative names, stdio descriptors only take part in close/renumber, creating/removing/renaming the mount point itself is unmodelled",
-                       "fs model follows wazero where it departs from POSIX: pread/pwrite with a negative offset -> EIO, pwrite on an O_APPEND descriptor -> EIO, mkdir below a file -> ENOENT, rename of a path onto the identical path succeeds even if it does not exist"]
+                       "fs model: one mount, no symlinks/hard links, paths are relative names optionally followed by '/', with '.', '..' and empty components normalised lexically as atPath does (Sys/FsNorm.v; rooted or escaping paths -> EPERM), stdio descriptors only take part in close/renumber, creating/removing/renaming the mount point itself is unmodelled",
+                       "fs stream does not generate a rename between two textually different spellings of the same path with equal trailing-slash flags (\"dir//x\" vs \"dir/x\", possible only through a descriptor opened as \"dir/\"): sysfs.rename short-cuts textually identical names only and the model identifies a name with its component list",
+                       "fs model follows wazero where it departs from POSIX: pread/pwrite with a negative offset -> EIO, pwrite on an O_APPEND descriptor -> EIO, mkdir below a file -> ENOENT, rename of a path onto the identical path succeeds even if it does not exist (also \"x/\" onto \"x/\" when x is a regular file); with a trailing slash: open with O_CREAT -> EISDIR whatever the name is, rename of a regular file from or to a name ending in '/' -> ENOTDIR; '..' and '.' are removed lexically before the file system is consulted (POSIX: component by component)"]
     proofs_ok = ck.proofs()
     quick = tier == "quick"
     n_table = 100 if quick else 4000
@@ -544,6 +678,22 @@ def run(tier, seed):
         if ln.startswith("{"):
             c = json.loads(ln)
             by.setdefault(c["stream"], []).append(c)
+    # fixed fs scenarios (corpus/C16/*.jsonl, one operation list per line), executed on the real code like the
+    # generated ones: trailing slashes on files / directories / missing names through the pre-open and through
+    # directory descriptors opened as "d" and as "d/", both sides of rename, O_CREAT / O_TRUNC through "name/"
+    cdir = os.path.join(ROOT, "corpus", "C16")
+    n_fixed = 0
+    for fn in sorted(os.listdir(cdir)) if os.path.isdir(cdir) else []:
+        if not fn.endswith(".jsonl"): continue
+        rc2, out2 = sh([binp, "-script", os.path.join(cdir, fn)], timeout=300)
+        fixed = [json.loads(ln) for ln in out2.split("\n") if ln.startswith("{")]
+        want = sum(1 for ln in open(os.path.join(cdir, fn)) if ln.startswith("["))
+        if rc2 != 0 or len(fixed) != want:
+            rc, out = rc2 or 1, out2
+            break
+        for c in fixed: c["corpus"] = fn
+        by["fs"] = fixed + by["fs"]
+        n_fixed += len(fixed)
     if rc != 0 or not all(by[k] for k in STREAMS):
         ck.violation("harness-crash", {"kind": "crash"}, {"rc": rc, "tail": out[-3000:]}, no_input=False)
         return ck.finish()
@@ -562,14 +712,24 @@ def run(tier, seed):
     if by.get("table"):
         td["max_key"] = max([o[1] for c in by["table"] for o in c["obs"] if o[0] == "key"] + [0])
         td["max_words"] = max(len(c["masks"]) for c in by["table"])
+    # fs stream: how the path arguments are distributed (trailing slashes, descriptor-relative paths)
+    fs_stats = {}
+    for c in by.get("fs", []):
+        fs_oracle(c, fs_stats)
+    if "fs" in dist:
+        dist["fs"]["paths"] = dict(sorted(fs_stats.items()))
+        dist["fs"]["fixed_scenarios"] = n_fixed
     ck.dist = dist
     ck.distinct = len(seen)
     ck.samples = [dict(stream=n, ops=cs[0]["ops"][:8], obs=cs[0]["obs"][:8]) for n, cs in by.items() if cs]
     ck.extra["rule"] = ("operation sequences generated from VERIF_SEED (random + boundary keys/buffers), executed on the real code; every case is evaluated by "
                         "the Coq model (vm_compute) and, independently, by a Python oracle stating the property on the observations; "
                         "non-trivial = more than two operations; distinct by (stream, ops)")
-    same = sum(1 for c in by.get("fs", []) for op, ob in zip(c["ops"], c["obs"]) if op[0] == "rename" and op[1] == op[2] and ob[0] == 0)
-    ck.extra["wazero_vs_posix"] = {"rename(p, p) returned success (POSIX: ENOENT when p does not exist; modelled as implemented)": same}
+    same = sum(1 for c in by.get("fs", []) for op, ob in zip(c["ops"], c["obs"])
+               if op[0] == "rename" and op[1] == op[2] and fs_dirfds(op)[0] == fs_dirfds(op)[1] and ob[0] == 0)
+    ck.extra["wazero_vs_posix"] = {"rename(p, p) returned success (POSIX: ENOENT when p does not exist; modelled as implemented)": same,
+                                   "... of which p is missing, or is \"file/\" (POSIX: ENOENT / ENOTDIR); nothing changes either way": fs_stats.get("rename_same_name_shortcut", 0),
+                                   "path with '.', '..' or an empty component on which the call succeeded although POSIX resolution fails (\"missing/../a\", \"file/.\"): atPath's path.Clean is lexical; judged as implemented": fs_stats.get("lexical_resolution_succeeds_where_posix_fails", 0)}
     reported = set()
     allmism = eval_streams(ck, by, big=not quick)
     if allmism is None:
